@@ -312,6 +312,8 @@ impl Circuit {
             config.sliding_window_type == SlidingWindowType::CountBased && old(self).total_count <= config.sliding_window_size
                 ==> final(self).total_count <= config.sliding_window_size,   // #window_slides [C04]
             old(self).state == CircuitState::Open ==> final(self).state == CircuitState::Open && final(self).last_state_change == old(self).last_state_change,   // #open_stays_open [C03]
+            config.sliding_window_type == SlidingWindowType::CountBased && old(self).state == CircuitState::HalfOpen && final(self).state == CircuitState::HalfOpen
+                ==> final(self).success_count + final(self).failure_count == old(self).success_count + old(self).failure_count + 1,   // #every_completed_trial_is_counted_while_half_open [C09]
     //@body Circuit::record_success
 
     pub fn record_failure<C>(&mut self, config: &CircuitBreakerConfig<C>, duration: Duration, clk: &mut Clock, Tracked(gh): Tracked<&mut Gh>)
@@ -329,6 +331,8 @@ impl Circuit {
             config.sliding_window_type == SlidingWindowType::CountBased && old(self).total_count <= config.sliding_window_size
                 ==> final(self).total_count <= config.sliding_window_size,   // #window_slides [C04]
             old(self).state == CircuitState::Open ==> final(self).state == CircuitState::Open && final(self).last_state_change == old(self).last_state_change,   // #open_stays_open [C03]
+            config.sliding_window_type == SlidingWindowType::CountBased && old(self).state == CircuitState::HalfOpen && final(self).state == CircuitState::HalfOpen
+                ==> final(self).success_count + final(self).failure_count == old(self).success_count + old(self).failure_count + 1,   // #every_completed_trial_is_counted_while_half_open [C09]
     //@body Circuit::record_failure
 
     pub fn try_acquire<C>(&mut self, config: &CircuitBreakerConfig<C>, clk: &mut Clock, Tracked(gh): Tracked<&mut Gh>) -> (r: bool)
